@@ -1,3 +1,4 @@
+import re
 """props.py — one function per property; dispatch."""
 import json, os, sys
 from framework import *
@@ -78,14 +79,14 @@ def check_C06(ctx):
     for r in rows:
         size = int(r['h']['size'])
         caps = list(range(0, size + 2)) if size <= (40 if ctx.quick else 200) else sorted({0, 1, size // 2, size - 1, size, size + 1, size + 7})
-        for kind in ('buf', 'ped', 'cx'):
+        for kind in ('buf', 'ped', 'cx', 'pbuf', 'pped', 'ubuf', 'uped'):
             for cap in caps:
                 cases.append((r, kind, cap, 0, 'encw T%d %s %d 0 %s' % (r['tid'], kind, cap, r['input'])))
         for kind in ('bbuf', 'bped'):
             for lim in caps:
                 cases.append((r, kind, size + 8, lim, 'encw T%d %s %d %d %s' % (r['tid'], kind, size + 8, lim, r['input'])))
     outs = run_harness(pool, [c[4] for c in cases])
-    mouts = run_driver(pool, ['encw T%d %d %d %s' % (c[0]['tid'], 0 if c[1] in ('buf', 'bbuf') else 1, min(c[2], c[3]) if c[1].startswith('b') and c[1] != 'buf' else c[2], c[0]['h']['dump'])
+    mouts = run_driver(pool, ['encw T%d %d %d %s' % (c[0]['tid'], 0 if c[1] in ('buf', 'bbuf', 'pbuf', 'ubuf') else 1, min(c[2], c[3]) if c[1].startswith('b') and c[1] != 'buf' else c[2], c[0]['h']['dump'])
                               for c in cases])
     cbroken = []
     for (r, kind, cap, lim, line), o, mo in zip(cases, outs, mouts):
@@ -107,7 +108,7 @@ def check_C06(ctx):
             if f['st'] != '13' or f['n'] != '0':
                 ctx.violate('small-buffer:' + kind, 'capacity %d < GetSize %d but %s returned st=%s after writing %s bytes: %s' % (room, size, kind, f['st'], f['n'], line[:160]),
                             {'case': line, 'output': o})
-        if kind in ('buf', 'ped', 'cx') and not mo.startswith('DRIVER'):
+        if kind in ('buf', 'ped', 'cx', 'pbuf', 'pped', 'ubuf', 'uped') and not mo.startswith('DRIVER'):
             mf = sx.fields(mo)
             if mf.get('st') != f['st'] or (f['st'] == '0' and mf.get('bytes') != f['bytes']):
                 cbroken.append({'case': line, 'hraw': o, 'mraw': mo})
@@ -119,7 +120,7 @@ def check_C06(ctx):
         n = hexlen(r['h']['bytes'])
         if size == 0 or size != n:
             continue
-        for kind in ('buf2', 'ped2'):
+        for kind in ('buf2', 'ped2', 'pbuf2', 'ubuf2', 'uped2'):
             for cap in sorted({size, size + 1, 2 * size - 1, 2 * size, 2 * size + 3}):
                 tw.append((r, kind, cap, size, 'encw T%d %s %d %d %s' % (r['tid'], kind, cap, cap, r['input'])))
     two = run_harness(pool, [x[4] for x in tw])
@@ -224,8 +225,8 @@ def check_C01(ctx):
     sample = [r for r in enc_ok if 'handle' not in pool.caps[r['tid']]]
     ctx.rng.shuffle(sample)
     sample = sample[: (120 if ctx.quick else 2500)]
-    wkinds = ['buf', 'ped', 'cx', 'stream', 'fd', 'bbuf', 'bped']
-    rkinds = ['buf', 'ped', 'stream', 'fd', 'bbuf', 'bped', 'bstream', 'bfd']
+    wkinds = ['buf', 'ped', 'cx', 'stream', 'fd', 'bbuf', 'bped', 'pbuf', 'ubuf', 'uped']
+    rkinds = ['buf', 'ped', 'stream', 'fstream', 'fd', 'bbuf', 'bped', 'bstream', 'bfstream', 'bfd', 'pbuf', 'ubuf', 'uped']
     wl = []
     for r in sample:
         size = int(r['h']['size'])
@@ -275,10 +276,19 @@ def valid_encodings(ctx, S, extra_mut=True):
             for kind, m in mutations(hx, ctx.rng, 30):
                 if kind in ('widen8', 'widen16', 'widen32', 'widen64', 'swiden', 'inc', 'ins'):
                     cand.append((tid, m))
+        # what another version of the same table wrote (unknown and deleted entries to skip at any position, the last included)
+        by_t = {}
+        for tid, hx in base:
+            by_t.setdefault(tid, []).append(hx)
+        pairs = [(a, b) for a, b in compat_pairs(pool) if a != b and a in by_t]
+        ctx.rng.shuffle(pairs)
+        for a, b in pairs[: (150 if ctx.quick else 2000)]:
+            for hx in ctx.rng.sample(by_t[a], min(2 if ctx.quick else 6, len(by_t[a]))):
+                cand.append((b, hx))
         mo = run_driver(pool, ['dec T%d %s' % c for c in cand])
         for (tid, m), o in zip(cand, mo):
             f = sx.fields(o)
-            if f.get('st') == '0' and f.get('consumed') == str(hexlen(m)):
+            if f.get('st') == '0' and f.get('consumed') == str(hexlen(m)) and not is_k1(pool, tid):
                 out.append((tid, m))
     return out
 
@@ -291,7 +301,7 @@ def check_C05(ctx):
     ctx.rng.shuffle(encs)
     encs = encs[: (700 if ctx.quick else 12000)]
     items, lib = [], []
-    rkinds = ['buf', 'ped', 'stream', 'fd', 'bbuf', 'bped', 'bstream', 'bfd']
+    rkinds = ['buf', 'ped', 'stream', 'fstream', 'fd', 'bbuf', 'bped', 'bstream', 'bfstream', 'bfd', 'pbuf', 'ubuf', 'uped']
     for tid, hx in encs:
         n = hexlen(hx)
         cuts = range(n) if n <= 40 else sorted(set(list(range(10)) + [ctx.rng.randrange(n) for _ in range(20)] + [n - 1, n - 2]))
@@ -424,6 +434,34 @@ def has_unbounded(t):
     return any(x[0] == 'seq' and x[1][0] == 'lbuf' and x[1][4] for x in nopgen.walk(t))
 
 
+def twin_pool(pool):
+    """a pool description for the model driver only (never compiled): every type with its arrays and logical buffers
+    widened to vectors, under the same ids"""
+    import hashlib
+    types = [nopgen.widen(t) for t in pool.types]
+    txt = ''.join('T%d %s %s\n' % (i, nopgen.desc(t), ','.join(sorted(nopgen.caps(t))) or '-') for i, t in enumerate(types))
+    d = os.path.join(BUILD, 'twin-' + hashlib.sha256(txt.encode()).hexdigest()[:16])
+    os.makedirs(d, exist_ok=True)
+    fp = os.path.join(d, 'pool.txt')
+    if not os.path.exists(fp):
+        with open(fp + '.tmp', 'w') as f:
+            f.write(txt)
+        os.replace(fp + '.tmp', fp)
+    return Pool(types, d)
+
+
+def reuse_ok(o):
+    """the `reuse=` field of a hostile run: 'ok', or 'diff:<status into the used object>/<status into a fresh one>:<dumps>'.
+    When the second read fails in both with the same status the property asks nothing of the contents left behind (a
+    failed read leaves a valid but unspecified value), so only a differing status, or differing values after success, count."""
+    v = sx.fields(o).get('reuse')
+    if v == 'ok':
+        return True
+    m = re.match(r'diff:(-?\d+)/(-?\d+):', v or '')
+    return bool(m and m.group(1) == m.group(2) and m.group(1) != '0')
+
+
+
 def check_C02(ctx):
     proofs_or_violation(ctx, ['Properties_C02.v'])
     S = CodecStreams(ctx)
@@ -447,17 +485,68 @@ def check_C02(ctx):
             for rk in ('inst', 'binst'):
                 cases.append((tid, rk, m, hx, kind, 'hostile T%d %s %s %s' % (tid, rk, m, hx)))
             if 'handle' not in pool.caps[tid]:
-                for rk in ('buf', 'ped', 'bbuf', 'bped', 'bstream', 'bfd'):
+                for rk in ('buf', 'ped', 'bbuf', 'bped', 'bstream', 'bfstream', 'bfd'):
                     libcases.append((tid, rk, m, 'decr T%d %s %d %s' % (tid, rk, hexlen(m), m)))
         for _ in range(4 if ctx.quick else 40):
             n = ctx.rng.randint(0, 32)
             m = ''.join('%02x' % ctx.rng.randrange(256) for _ in range(n)) or '-'
             cases.append((tid, 'inst', m, hx, 'random', 'hostile T%d inst %s %s' % (tid, m, hx)))
+    # overfull bounded containers: well-formed encodings whose array / logical-buffer count exceeds the destination's
+    # capacity with every element present (cap+1, and counts that are small modulo 2^8 / 2^16).  The bytes are the
+    # model's format encoding of the same value under the type with its bounded containers widened to vectors.
+    twin = twin_pool(pool)
+    valid = {}
+    for tid, hx in encs:
+        valid.setdefault(tid, hx)
+    over = []
+    for tid in sorted(valid):
+        if not nopgen.bounded_seqs(pool.types[tid]):
+            continue
+        for _ in range(6 if ctx.quick else 40):
+            g = nopgen.gen_overfull(pool.types[tid], ctx.rng)
+            if g:
+                over.append((tid,) + g)
+    # short runs: the model encodes the whole value.  Long runs (one element repeated): the model encodes the value with
+    # 1, 2 and 3 copies; prefix, element and suffix are read off the first two and the splice is accepted only when it
+    # reproduces the third (so an enclosing size field, which would also change, rules the case out).
+    def count_enc(n):
+        return '%02x' % n if n < 128 else '80%02x' % n if n < 256 else '81' + le(n, 2) if n < 65536 else '82' + le(n, 4)
+    lines, idx = [], []
+    for tid, v, n, one in over:
+        if one is None:
+            idx.append((tid, n, len(lines), 1)); lines.append('enc T%d %s' % (tid, v))
+        else:
+            idx.append((tid, n, len(lines), 3))
+            lines += ['enc T%d %s' % (tid, v.replace('@@', (' ' + one) * k)) for k in (1, 2, 3)]
+    tw = [sx.fields(o).get('spec') for o in run_driver(twin, lines)]
+    for tid, n, at, k in idx:
+        if k == 1:
+            sp = tw[at]
+        else:
+            s1, s2, s3 = tw[at:at + 3]
+            sp = None
+            if s1 and s2 and s3 and '?' not in (s1, s2, s3):
+                el = len(s2) - len(s1)
+                pos = next((i for i in range(0, len(s1), 2) if s1[i:i + 2] != s2[i:i + 2]), None)
+                if pos is not None and el > 0:
+                    c1 = int(s1[pos:pos + 2], 16)
+                    pre, e, suf = s1[:pos], s1[pos + 2:pos + 2 + el], s1[pos + 2 + el:]
+                    if c1 < 32 and pre + count_enc(3 * c1) + e * 3 + suf == s3:
+                        sp = pre + count_enc(n * c1) + e * n + suf
+        if not sp or sp == '?':
+            continue
+        for rk in ('inst', 'binst'):
+            cases.append((tid, rk, sp, valid[tid], 'overfull', 'hostile T%d %s %s %s' % (tid, rk, sp, valid[tid])))
     outs = run_harness(pool, [c[5] for c in cases])
     mouts = run_driver(pool, ['dec T%d %s' % (c[0], c[2]) for c in cases])
     broken = []
     for (tid, rk, m, hx, kind, line), o, mo in zip(cases, outs, mouts):
         ctx.count('hostile:%s:%s' % (rk, kind), line, nontrivial=not o.startswith('HARNESS'))
+        if kind == 'overfull' and o.startswith('st=0 '):
+            ctx.violate('overfull-accepted', 'an encoding with more elements than the bounded destination has room for was read with success '
+                        '(the surplus elements were written past the destination or lost): %s -> %s' % (line[:200], o[:200]),
+                        {'type': type_desc(pool, tid), 'case': line, 'output': o})
+            continue
         if o.startswith(('OOM', 'EXCEPTION')):
             ctx.violate('over-allocation', 'decoding %d input bytes requested more than 256 MiB at once / 1 GiB in total (%s): %s' % (hexlen(m), o[:80], line[:160]),
                         {'type': type_desc(pool, tid), 'case': line, 'output': o})
@@ -471,7 +560,7 @@ def check_C02(ctx):
         if int(f['alloc']) > bound:
             ctx.violate('over-allocation', 'decoding %d input bytes allocated %s bytes (bound for this type: %d): %s' % (hexlen(m), f['alloc'], bound, line[:160]),
                         {'type': type_desc(pool, tid), 'case': line, 'output': o, 'bound': bound})
-        if f.get('reuse') != 'ok':
+        if not reuse_ok(o):
             ctx.violate('not-reusable', 'after the read the destination could not be read into again like a fresh object: %s -> %s' % (line[:160], o[:300]),
                         {'type': type_desc(pool, tid), 'case': line, 'output': o})
         mf = sx.fields(mo)
@@ -605,7 +694,7 @@ def check_C11(ctx):
         ctx.count('prior:' + kind, line)
         if o.startswith(('CRASH', 'HARNESS', 'OOM', 'EXCEPTION')):
             ctx.violate('memory-error', 'reading twice into one object crashed or tripped a sanitizer: %s -> %s' % (line[:160], o[:300]), {'case': line, 'output': o})
-        elif sx.fields(o).get('reuse') != 'ok':
+        elif not reuse_ok(o):
             ctx.violate('prior-dependent:' + kind, 'an object left by an earlier %s does not read like a fresh one: %s -> %s' % (kind, line[:200], o[:300]),
                         {'type': type_desc(pool, tid), 'case': line, 'output': o})
     for e in framework.EXIT_PROBLEMS:
@@ -795,6 +884,11 @@ def check_C08(ctx):
                 if 0 <= cut < len(body):
                     g = ents[:k] + [(eid, body[:cut])] + ents[k + 1:]
                     items.append((r['tid'], build_table(h, g), '-', ('shrink', None, None), None))
+            # a declared size far beyond the input (up to 2^64-1, where offset + size wraps): recognised, unknown and deleted ids
+            for big in (2 ** 64 - 1, 2 ** 64 - 2 - ctx.rng.randrange(40), 2 ** 63, 2 ** 32 + len(body), n0 + 64):
+                for eid2 in (eid, 9997 if 9997 not in known else 70003):
+                    g = ents[:k] + [(eid2, body)] + ents[k + 1:]
+                    items.append((r['tid'], build_table(h, g, [None] * k + [big] + [None] * (len(ents) - k - 1)), '-', ('oversize', None, None), None))
             # corrupt one byte inside the entry
             if body:
                 j = ctx.rng.randrange(len(body))
@@ -857,6 +951,8 @@ def check_C08(ctx):
             bad = 'a repeated recognised active entry was not rejected with DuplicateTableEntry'
         elif kind == 'shrink' and h.get('st') == '0':
             bad = 'an entry whose declared size is smaller than its value needs was accepted'
+        elif kind == 'oversize' and h.get('st') == '0':
+            bad = 'an entry that declares more bytes than the input holds was accepted'
         if bad:
             ctx.violate('framing:' + kind, '%s: %s -> %s' % (bad, d['case'][:160], d['hraw'][:160]),
                         {'type': type_desc(pool, d['tid']), 'case': d['case'], 'output': d['hraw'], 'model': d['mraw']})
@@ -867,6 +963,30 @@ def check_C08(ctx):
                     {'type': type_desc(pool, d['tid']), 'case': d['case'], 'output': d['hraw'], 'model': d['mraw']})
             else:
                 broken.append(d)
+    # the same inputs through the library's own readers: same verdict, value and position as the instrumented reader
+    lib = []
+    step = 1 if not ctx.quick else 2
+    for d in drows[::step]:
+        if d['h'] is None:
+            continue
+        hx = d['hex']
+        if not hx or hx == '-':
+            continue
+        for rk in ('buf', 'ped', 'stream', 'fstream', 'bbuf'):
+            lib.append((d, rk, 'decr T%d %s %d %s' % (d['tid'], rk, hexlen(hx), hx)))
+    lo = run_harness(pool, [x[2] for x in lib])
+    for (d, rk, line), o in zip(lib, lo):
+        if o == 'unsupported':
+            continue
+        kind = d['tag'][0]
+        ctx.count('framing:%s:%s' % (rk, kind), line)
+        if o.startswith(('CRASH', 'HARNESS', 'OOM', 'EXCEPTION')):
+            ctx.violate('crash:' + rk, 'reader %s crashed on a manipulated table: %s -> %s' % (rk, line[:160], o[:300]), {'case': line, 'output': o})
+            continue
+        f, h = sx.fields(o), d['h']
+        if (f.get('st') == '0') != (h.get('st') == '0') or (f.get('st') == '0' and (not val_eq(f.get('val'), h.get('val')) or f.get('consumed') != h.get('consumed'))):
+            ctx.violate('framing:%s:%s' % (rk, kind), 'reader %s reads a table with %s entries differently from the byte-at-a-time reference reader: %s -> %s, reference %s' %
+                        (rk, kind, line[:200], o[:120], d['hraw'][:120]), {'type': type_desc(pool, d['tid']), 'case': line, 'output': o, 'reference': d['hraw']})
     report_broken(ctx, broken, 'dec-table', 'Deserializer::Read = model dec on manipulated tables')
     return finish_with_proofs(ctx)
 
